@@ -56,6 +56,30 @@ def parser_cond_rule(ctx):
     return obs
 
 
+def helper_defs_rule(ctx):
+    """the runtime helpers the emitted skeletons call are defined with the expected bodies"""
+    ob = ctx.ob
+    tc = ctx.tc
+    obs = []
+    items = {}
+    for name in ("RUNTIME_ITEMS", "EXTRA_RUNTIME_ITEMS", "WXS_RUNTIME_ITEMS"):
+        c = tc.const(name)
+        if c is None:
+            obs.append(ob("C03.helpers/%s" % name, False, "group.rs", "runtime item table %s not found" % name))
+            continue
+        for el in sir.walk(c["e"]):
+            if el.get("k") == "tuple" and len(el["elems"]) == 2 and all(x.get("k") == "lit" for x in el["elems"]):
+                items.setdefault(name, {})[el["elems"][0]["v"]] = el["elems"][1]["v"]
+    want = {"RUNTIME_ITEMS": {"X": r"a==null\?Object\.create\(null\):a", "Y": r"a==null\?'':String\(a\)", "Z": r"a===true\)returntrue;if\(a\)returna\[b\]", "P": r"typeofa==='function'\?a:\(\)=>\{\}"},
+            "EXTRA_RUNTIME_ITEMS": {"a": None, "b": None}, "WXS_RUNTIME_ITEMS": {"A": None, "B": None}}
+    for tname, hs in want.items():
+        for h, rx in hs.items():
+            body = items.get(tname, {}).get(h)
+            ok = body is not None and (rx is None or re.search(rx, body.replace(" ", "")) is not None)
+            obs.append(ob("C03.helpers/def/%s.%s" % (tname, h), ok, "group.rs", "helper %s: %s" % (h, body if body else "not defined")))
+    return obs
+
+
 def wave8_rules(ctx):
     """obligations added after the eighth wave of seeded changes"""
     ob = ctx.ob
@@ -81,6 +105,10 @@ def wave8_rules(ctx):
         x = dict(x)
         x["key"] = x["key"].replace("C05.innermost", "C03.scope/innermost")
         obs.append(x)
+    # (5) wave 9: escape sequences of string literals are decoded as ECMAScript decodes them (shared with C12.unescape)
+    from share import relabel
+    from rules.c12 import check_unescape
+    obs += relabel(check_unescape(ctx), "C12.unescape", "C03.literal/unescape")
     return obs
 
 
@@ -317,22 +345,7 @@ def run(ctx):
         obs.append(ob("C03.helpers/%s" % v, ok, where, "emitted skeleton %r must contain %s (null-safe read / callable-or-noop / display string)" % (text.replace("\x00", "{}"), must)))
 
     # ---------------- C03.helpers: helper definitions
-    items = {}
-    for name in ("RUNTIME_ITEMS", "EXTRA_RUNTIME_ITEMS", "WXS_RUNTIME_ITEMS"):
-        c = tc.const(name)
-        if c is None:
-            obs.append(ob("C03.helpers/%s" % name, False, "group.rs", "runtime item table %s not found" % name))
-            continue
-        for el in sir.walk(c["e"]):
-            if el.get("k") == "tuple" and len(el["elems"]) == 2 and all(x.get("k") == "lit" for x in el["elems"]):
-                items.setdefault(name, {})[el["elems"][0]["v"]] = el["elems"][1]["v"]
-    want = {"RUNTIME_ITEMS": {"X": r"a==null\?Object\.create\(null\):a", "Y": r"a==null\?'':String\(a\)", "Z": r"a===true\)returntrue;if\(a\)returna\[b\]", "P": r"typeofa==='function'\?a:\(\)=>\{\}"},
-            "EXTRA_RUNTIME_ITEMS": {"a": None, "b": None}, "WXS_RUNTIME_ITEMS": {"A": None, "B": None}}
-    for tname, hs in want.items():
-        for h, rx in hs.items():
-            body = items.get(tname, {}).get(h)
-            ok = body is not None and (rx is None or re.search(rx, body.replace(" ", "")) is not None)
-            obs.append(ob("C03.helpers/def/%s.%s" % (tname, h), ok, "group.rs", "helper %s: %s" % (h, body if body else "not defined")))
+    obs += helper_defs_rule(ctx)
 
     # ---------------- C03.lists: separator flags of list emitters
     obs += list_rules(ctx)
@@ -526,6 +539,17 @@ def float_display_rule(ctx, prefix):
         obs.append(ob("%s/float-display/%s" % (prefix, b["root"]), guarded, c["span"],
                       "f64 is formatted with Rust's Display %s a finiteness test in the same function (Rust prints `inf`/`NaN`, which are identifiers in JS and WXML)" % ("under" if guarded else "without"),
                       witness=None if guarded else "{{ 1e999 }} emits `inf`"))
+        # the function that spells a float never squeezes it through an integer type (finite floats exceed every integer range)
+        fname = b["root"].split("::")[-1]
+        for f in ctx.tc.fns:
+            if not f.body or f.name != fname:
+                continue
+            floats = set(q.get("pat", {}).get("name") for q in f.params if not q.get("self") and "f64" in (q.get("ty") or ""))
+            casts = [n for n in sir.walk(f.body) if n.get("k") == "cast" and re.fullmatch(r"[iu](8|16|32|64|128|size)", (n.get("ty") or "").strip())
+                     and any(x.get("k") == "path" and len(x["segs"]) == 1 and x["segs"][0] in floats for x in sir.walk(n["e"]))]
+            obs.append(ob("%s/float-display/%s/no-int-cast" % (prefix, b["root"]), not casts, ctx.where(f),
+                          "the float writer does not cast its value to an integer type" if not casts else "the float is cast: `%s as %s`" % (sir.expr_str(casts[0]["e"])[:30], casts[0]["ty"]),
+                          witness=None if not casts else "{{ 1e19 }} emits 9223372036854775807"))
     pcs = float_sites(ctx.pc_mir, {"poscontrol"})
     ok = any(b["root"] == "float_display" and not g for b, c, g in pcs)
     obs.append(ob("%s/float-display/positive-control" % prefix, ok, "fixtures/poscontrol", "detector finds the unguarded f64 Display of the fixture: %s" % ok))
